@@ -32,10 +32,12 @@ address in the same model), ROW / COLUMN the exported origin, a #REF! result
 the error value #REF!.  A consumer is skipped for a vector (and counted) when
 the written form itself raises or is not supported by pycel.
 
-Every vector runs the core catalogue (bare, SUM, ROW, COLUMN, INDEX of the
-last cell; both argument styles); a seeded sample stratified by (function,
-shape of the result, which optional arguments are given, sheet prefix, window)
-runs the full catalogue in both environments.
+Every vector runs the core catalogue (literal arguments: bare, SUM, ROW,
+COLUMN, INDEX of the last cell; arguments in cells: SUM; a height / width of 0
+and text that is no reference: the bare formula); a seeded sample stratified
+by (function, shape of the result, which optional arguments are given, and in
+the thorough tier sheet prefix, window, style of the text) runs the full
+catalogue in both environments.
 """
 import json
 import os
@@ -59,8 +61,8 @@ AREA_COL0, AREA_COLS, AREA_ROW0 = 20, 100, 40
 CHUNK = 1500               # formula cells per workbook
 BUDGET = {'quick': dict(workers=4, coarse=True, offset_per_stratum=2, indirect_per_stratum=2,
                         open_texts=300),
-          'thorough': dict(workers=8, coarse=False, offset_per_stratum=14,
-                           indirect_per_stratum=8, open_texts=3000)}
+          'thorough': dict(workers=8, coarse=False, offset_per_stratum=4,
+                           indirect_per_stratum=2, open_texts=3000)}
 
 
 def T(codes):
@@ -341,8 +343,9 @@ def consumers_of(vec, full, style):
         return [c for c in CATALOGUE if c[0] in CORE_CELL]
     if vec.kind != 'ref':
         names = ERR_FULL if full else ERR_CORE
-        if not full and vec.m == 'offset' and 0 in (vec.h, vec.w):
-            names = ('bare',)        # a height or width of 0: one path of the code
+        if not full and (vec.m != 'offset' or 0 in (vec.h, vec.w)):
+            # a height or width of 0, text that is no reference: one path of the code
+            names = ('bare',)
         return [c for c in CATALOGUE if c[0] in names]
     return [c for c in CATALOGUE if (full or c[3]) and applies(c[2], vec.nr, vec.nc)
             and (full or c[0] != 'INDEX last' or vec.nr * vec.nc > 1)]
@@ -591,31 +594,34 @@ class Binder:
         return chosen, len(strata)
 
     def plan(self, vecs):
-        chosen, nstrata = self.sample(vecs)
+        """the workbooks, one after the other (a generator: a plan is dropped
+        as soon as its workbook has been judged)"""
+        chosen, self.nstrata = self.sample(vecs)
         self.full_vectors = len(chosen)
-        books = []
         cur = {}
-
-        def book(env):
-            if env not in cur or cur[env].size() > CHUNK:
-                cur[env] = Workbook(env, self.layout)
-                books.append(cur[env])
-            return cur[env]
         opens = [i for i, x in enumerate(vecs) if x.kind == 'open']
         opens = set(self.rnd.sample(opens, min(len(opens), self.budget['open_texts'])))
         for i, x in enumerate(vecs):
+            todo = []
             if x.kind == 'open':
                 if i in opens:
-                    book('O').add(i, x, False, ['lit'])
-                continue
-            full = i in chosen
-            styles = ['lit', 'cell'] + (['true'] if x.m != 'offset' and full else [])
-            if x.m == 'text' and not full:
-                styles = ['lit']
-            book('V').add(i, x, full, styles)
-            if full:
-                book('E').add(i, x, True, ['lit'] if self.budget['coarse'] else ['lit', 'cell'])
-        return books, nstrata
+                    todo.append(('O', False, ['lit']))
+            else:
+                full = i in chosen
+                styles = ['lit', 'cell'] + (['true'] if x.m != 'offset' and full else [])
+                if x.m == 'text' and not full:
+                    styles = ['lit']
+                todo.append(('V', full, styles))
+                if full:
+                    todo.append(('E', True, ['lit'] if self.budget['coarse'] else ['lit', 'cell']))
+            for env, full, styles in todo:
+                if env in cur and cur[env].size() > CHUNK:
+                    yield cur.pop(env)
+                if env not in cur:
+                    cur[env] = Workbook(env, self.layout)
+                cur[env].add(i, x, full, styles)
+        for env in sorted(cur):
+            yield cur[env]
 
     def fail(self, vec, name, style, env, symptom, desc, case):
         group = (vec.fn, name, symptom)
@@ -661,7 +667,8 @@ class Binder:
                 if got != REF:
                     self.fail(vec, name, style, book.env, 'not #REF!',
                               f'{where}: the reference is not on the sheet / not a '
-                              f'reference, expected #REF!, got {brief(got)}', case)
+                              f'reference, expected #REF!, got {brief(got)}',
+                              dict(case(), expect=REF))
                     continue
             if vec.kind == 'ref' and name in ('ROW', 'COLUMN'):
                 v.case((vec.key, name, style, book.env, 'origin'))
@@ -669,7 +676,7 @@ class Binder:
                 if not same(got, origin):
                     self.fail(vec, name, style, book.env, 'origin',
                               f'{where}: expected {origin} (the rectangle is {vec.written}), '
-                              f'got {brief(got)}', case)
+                              f'got {brief(got)}', dict(case(), expect=origin))
                     continue
             if top is not None:
                 v.case((vec.key, name, style, book.env, 'top left'))
@@ -694,19 +701,39 @@ class Binder:
                 self.fail(vec, name, style, book.env, symptom,
                           f'{where}: {brief(got)}, but {wkey[1]} gives {brief(want)}', case)
 
-    def run(self, vecs):
-        books, nstrata = self.plan(vecs)
-        jobs = [b.job() for b in books]
-        self.workbooks += len(books)
-        self.formulas += sum(len(j['computed']) + len(j['written']) for j in jobs)
-        from harness.parallel import run_jobs
-        # one batch at a time keeps the memory of the parent small
-        step = 4 * self.budget['workers']
-        for s in range(0, len(jobs), step):
-            outs = run_jobs(run_workbook, jobs[s:s + step], workers=self.budget['workers'])
-            for b, out in zip(books[s:s + step], outs):
-                self.judge(vecs, b, out)
-        return nstrata
+    def run(self, vecs, pool):
+        pending = []
+
+        def settle():
+            book, fut = pending.pop(0)
+            try:
+                out = fut.result()
+            except Exception as exc:   # noqa
+                raise tlc.MachineryFailure(f'a workbook job failed: {exc!r}')
+            self.judge(vecs, book, out)
+        for book in self.plan(vecs):
+            job = book.job()
+            self.workbooks += 1
+            self.formulas += len(job['computed']) + len(job['written'])
+            pending.append((book, pool.submit(run_workbook, job)))
+            if len(pending) >= 3 * self.budget['workers']:
+                settle()
+        while pending:
+            settle()
+        return self.nstrata
+
+
+def _warm(_):
+    time.sleep(0.3)
+    return os.getpid()
+
+
+def start_pool(workers):
+    """the worker processes are forked before the parent grows"""
+    import concurrent.futures as cf
+    pool = cf.ProcessPoolExecutor(max_workers=workers)
+    list(pool.map(_warm, range(workers)))
+    return pool
 
 
 def observations():
@@ -749,6 +776,14 @@ def run(tier, seed):
     v = Verdict(PID, tier, seed)
     rnd = random.Random(seed)
     cfg = 'RefCompute_mc.cfg' if tier == 'quick' else 'RefCompute_big.cfg'
+    pool = start_pool(BUDGET[tier]['workers'])
+    try:
+        return _run(v, tier, rnd, cfg, pool)
+    finally:
+        pool.shutdown(wait=False, cancel_futures=True)
+
+
+def _run(v, tier, rnd, cfg, pool):
     t0 = time.time()
     res, vecs = run_tlc(v, cfg)
     taken, classes, counts = check_export(vecs, cfg[:-4])
@@ -759,7 +794,7 @@ def run(tier, seed):
 
     binder = Binder(v, tier, rnd)
     t1 = time.time()
-    nstrata = binder.run(vecs)
+    nstrata = binder.run(vecs, pool)
     v.traces = sum(1 for x in vecs if x.kind != 'open')
 
     if binder.failed:
@@ -846,6 +881,8 @@ def replay(path):
     print(f"replay {rec['desc']}\n  now: {case['computed']} -> {brief(out[0])}; "
           f"{case['written']} -> {brief(out[1])}")
     ok = same(out[0], out[1]) or is_exc(out[1])
+    if 'expect' in case:
+        ok = same(out[0], case['expect'])
     if 'top' in case:
         try:
             direct = plain(model.evaluate('!'.join(case['top'])))
